@@ -133,33 +133,41 @@ func recC18(c *ctx) {
 				for i := 0; i < 150; i++ {
 					ki := gr.Intn(len(kr.pub))
 					ok := true
-					switch gr.Intn(6) {
-					case 0:
-						var ck curve.CompressedEdwardsY
-						copy(ck[:], kr.pub[ki])
-						if v := lc.Get(&ck); v != nil {
-							cy := v.CompressedY()
-							ok = bytes.Equal(cy[:], kr.pub[ki]) // never a key belonging to a different public key
+					func() {
+						// a panic of the library on these well-formed calls is a failed result, not a dead recorder
+						defer func() {
+							if p := recover(); p != nil {
+								ok = false
+							}
+						}()
+						switch gr.Intn(6) {
+						case 0:
+							var ck curve.CompressedEdwardsY
+							copy(ck[:], kr.pub[ki])
+							if v := lc.Get(&ck); v != nil {
+								cy := v.CompressedY()
+								ok = bytes.Equal(cy[:], kr.pub[ki]) // never a key belonging to a different public key
+							}
+						case 1:
+							var ck curve.CompressedEdwardsY
+							copy(ck[:], kr.pub[ki])
+							lc.Put(&ck, kr.xk[ki])
+						case 2, 3:
+							ok = ver.Verify(kr.pub[ki], msgs[ki], sigs[ki])
+							if gr.Intn(4) == 0 { // and a wrong message must still be rejected through the cache
+								ok = ok && !ver.Verify(kr.pub[ki], []byte("other"), sigs[ki])
+							}
+						case 4:
+							ver.AddPublicKey(kr.pub[ki])
+						case 5:
+							ver.Add(bv, kr.pub[ki], msgs[ki], sigs[ki])
+							if gr.Intn(3) == 0 {
+								all, _ := bv.Verify(nil)
+								ok = all
+								bv.Reset()
+							}
 						}
-					case 1:
-						var ck curve.CompressedEdwardsY
-						copy(ck[:], kr.pub[ki])
-						lc.Put(&ck, kr.xk[ki])
-					case 2, 3:
-						ok = ver.Verify(kr.pub[ki], msgs[ki], sigs[ki])
-						if gr.Intn(4) == 0 { // and a wrong message must still be rejected through the cache
-							ok = ok && !ver.Verify(kr.pub[ki], []byte("other"), sigs[ki])
-						}
-					case 4:
-						ver.AddPublicKey(kr.pub[ki])
-					case 5:
-						ver.Add(bv, kr.pub[ki], msgs[ki], sigs[ki])
-						if gr.Intn(3) == 0 {
-							all, _ := bv.Verify(nil)
-							ok = all
-							bv.Reset()
-						}
-					}
+					}()
 					if !ok {
 						resMu.Lock()
 						allOK = false
@@ -240,11 +248,14 @@ func replaySchedules(c *ctx, col *collector, path string, shard *int) {
 			keys := plan[cl]
 			go func(g *gst, keys []int) {
 				slot.Store(goid(), g)
+				defer func() {
+					_ = recover() // the recorded critical sections then no longer match the schedule
+					slot.Delete(goid())
+					close(g.done)
+				}()
 				for _, k := range keys {
 					ver.AddPublicKey(kr.pub[k-1])
 				}
-				slot.Delete(goid())
-				close(g.done)
 			}(g, keys)
 		}
 		// wait until every goroutine that has work is at its first gate (or done)
@@ -321,6 +332,8 @@ func concAPI(c *ctx, shard *int) {
 		j.mulb, _ = p.MarshalBinary()
 	}
 	shared, _ := ed25519.NewExpandedPublicKey(jobs[0].pub)
+	sharedScalar, _ := scalar.NewFromBits(bytes.Repeat([]byte{0x7f}, 32)) // unreduced
+	sharedPoint := curve.NewEdwardsPoint().Set(curve.ED25519_BASEPOINT_POINT)
 	ver := cache.NewVerifier(cache.NewLRUCache(3))
 	var wg sync.WaitGroup
 	match := make([]bool, 16)
@@ -329,6 +342,11 @@ func concAPI(c *ctx, shard *int) {
 		go func(g int) {
 			defer wg.Done()
 			ok := true
+			defer func() {
+				if p := recover(); p != nil {
+					match[g] = false
+				}
+			}()
 			bv := ed25519.NewBatchVerifier()
 			for it := 0; it < 40; it++ {
 				j := &jobs[(g+it)%n]
@@ -348,6 +366,19 @@ func concAPI(c *ctx, shard *int) {
 				p.MulBasepoint(curve.ED25519_BASEPOINT_TABLE, s)
 				mb, _ := p.MarshalBinary()
 				ok = ok && bytes.Equal(mb, j.mulb)
+				// operands shared between goroutines (package-level constants and one shared unreduced scalar) are
+				// read-only for every arithmetic method
+				var t1, t2, t3, t4 scalar.Scalar
+				t1.Sub(scalar.BASEPOINT_ORDER, s)
+				t2.Add(sharedScalar, s)
+				t3.Mul(sharedScalar, &t1)
+				t4.Neg(sharedScalar)
+				t4.Sub(&t4, sharedScalar)
+				var q1, q2 curve.EdwardsPoint
+				q1.Add(curve.ED25519_BASEPOINT_POINT, &p)
+				q2.Sub(&q1, sharedPoint)
+				q2.Mul(sharedPoint, sharedScalar)
+				ok = ok && sharedPoint.Equal(curve.ED25519_BASEPOINT_POINT) == 1
 				bv.Add(j.pub, j.msg, j.sig)
 				if it%8 == 7 {
 					all, _ := bv.Verify(nil)
